@@ -224,7 +224,7 @@ func (f *MemFile) Read(b []byte) (n int, err error) {
 
 	f.at += int64(n)
 
-	if n == 0 {
+	if n == 0 && len(b) > 0 {
 		return 0, io.EOF
 	}
 
@@ -274,7 +274,11 @@ func (f *MemFile) ReadAt(b []byte, off int64) (n int, err error) {
 	nd.mu.RLock()
 	defer nd.mu.RUnlock()
 
-	if int(off) > len(nd.data) {
+	if len(b) == 0 {
+		return 0, nil
+	}
+
+	if off > int64(len(nd.data)) {
 		return 0, io.EOF
 	}
 
